@@ -273,8 +273,22 @@ def run(ctx):
     if not WRITE_STALL_OPS:
         cases = [c for c in cases if 'W' not in c[1]]
     impl, both = evaluate(ctx, cases)
+    # an op W that did not reach the blocked state makes its scenario inconclusive: one more try, then it is left out
+    for _ in range(2):
+        redo = [k for k, i in enumerate(impl) if i == 'NOFLOOD']
+        if not redo:
+            break
+        again, _ = evaluate(ctx, [cases[k] for k in redo], shards=2)
+        for k, i2 in zip(redo, again):
+            impl[k] = i2
+    inconclusive = [k for k, i in enumerate(impl) if i == 'NOFLOOD']
+    if inconclusive:
+        keep = [k for k in range(len(cases)) if k not in set(inconclusive)]
+        cases, impl, both = [cases[k] for k in keep], [impl[k] for k in keep], [both[k] for k in keep]
+    ctx.coverage['inconclusive_flood_scenarios'] = len(inconclusive)
     suspects = [k for k, (i, b) in enumerate(zip(impl, both)) if i != b.split('#')[0] or i != b.split('#')[1]]
     retried = len(suspects)
+    rechecked_detail = [[list(cases[k][:3]), impl[k], both[k].split('#')[1]] for k in suspects[:6]]
     if suspects:
         # a disagreement must reproduce with a much longer settle pause (outcome, not timing)
         impl2, _ = evaluate(ctx, [cases[k] for k in suspects], settle=400, shards=8)
@@ -346,5 +360,6 @@ def run(ctx):
         'input_classes': classes,
         'probes': sum(len(c[1].split()) for c in cases),
         'rechecked_with_long_settle': retried,
+        'rechecked_detail': rechecked_detail,
         'exhaustive': False,
     })
